@@ -330,7 +330,7 @@ theorem flatten_sound (e : E) (env : Env) : eval env (flatten1 e) = eval env e :
   cases e <;> simp [flatten1, eval, flattenChild_sound]
 
 /-- the IF branch of simplify_conditionals is exact -/
-theorem simplify_conditionals_if_sound (pc : Bool) (c t f : E) (env : Env) :
+theorem simplify_conditionals_if_sound (pc : PK) (c t f : E) (env : Env) :
     eval env (simplifyConditionals pc (.iff c t f)) = eval env (.iff c t f) := by
   simp only [simplifyConditionals]
   split; · rfl
@@ -339,37 +339,48 @@ theorem simplify_conditionals_if_sound (pc : Bool) (c t f : E) (env : Env) :
   · split
     · rename_i h
       have := alwaysFalse_truth env c h
+      rw [eval_wrapForParent]
       split
       · rename_i hf; subst hf; simp [eval, this]
       · simp [eval, this]
     · rfl
 
-/-- simplify_conditionals (CASE loop as repaired by 9cbbc29, and IF) is exact: a constant-TRUE condition collapses the
-    CASE only when it is the first remaining branch; constant-FALSE/NULL branches are dropped -/
-theorem simplify_conditionals_sound (pc : Bool) (e : E) (env : Env) :
+/-- simplify_conditionals (CASE loop as repaired by 9cbbc29, IF, and the parenthesised branch of a4faa75) is exact: a
+    constant-TRUE condition collapses the CASE only when it is the first remaining branch; constant-FALSE/NULL branches
+    are dropped; the branch that replaces the CASE / IF is wrapped in parentheses under a Binary / Unary / Predicate parent -/
+theorem simplify_conditionals_sound (pc : PK) (e : E) (env : Env) :
     eval env (simplifyConditionals pc e) = eval env e := by
   cases e with
   | case ifs d => simp only [simplifyConditionals]; rw [caseLoop_sound]; rfl
   | iff c t f => exact simplify_conditionals_if_sound pc c t f env
   | _ => rfl
 
-example : simplifyConditionals false (.case (.cons (.iff (.bool false) (.int 1) .absent)
+example : simplifyConditionals .none (.case (.cons (.iff (.bool false) (.int 1) .absent)
     (.cons (.iff (.bool true) (.int 2) .absent) .nil)) .absent)
     = .case (.cons (.iff (.bool true) (.int 2) .absent) .nil) .absent := by decide
 
 /-- why the "first remaining branch" test is needed: the unrepaired loop (`firstOnly = false`, the code before
     9cbbc29) turns `CASE WHEN b THEN 1 WHEN TRUE THEN 2 END` into `2`, wrong when `b` is TRUE -/
 theorem simplify_conditionals_needs_first_branch :
-    ∃ ifs env, eval env (caseLoop false .absent (listLen ifs + 1) [] ifs) ≠ eval env (.case ifs .absent) :=
+    ∃ ifs env, eval env (caseLoop false .none .absent (listLen ifs + 1) [] ifs) ≠ eval env (.case ifs .absent) :=
   ⟨.cons (.iff (.bcol 0 false) (.int 1) .absent) (.cons (.iff (.bool true) (.int 2) .absent) .nil),
    ⟨fun _ => some true, fun _ => none⟩, by decide⟩
 
+/-- text level (a4faa75): the branch that replaces `IF(TRUE, a OR b, c)` under an AND keeps its grouping, and
+    simplify_parens does not drop it again (an OR under an AND is not `reparseSafe`) -/
+theorem simplify_conditionals_keeps_grouping :
+    simplifyConditionals .and (.iff (.bool true) (.or (.bcol 0 false) (.bcol 1 false)) (.bcol 2 false))
+      = .paren (.or (.bcol 0 false) (.bcol 1 false)) ∧
+    simplifyParens .and (.paren (.or (.bcol 0 false) (.bcol 1 false))) = .paren (.or (.bcol 0 false) (.bcol 1 false)) ∧
+    reparseSafe .and 0 .or = false := by decide
+
 /-- `COALESCE(x) → x` and `COALESCE(<non-null constant>, …) → <that constant>` are exact -/
-theorem simplify_coalesce_head_sound (fl : Flags) (first rest : E) (env : Env) :
-    eval env (simplifyCoalesce fl (.coalesce (.cons first rest))) = eval env (.coalesce (.cons first rest)) := by
+theorem simplify_coalesce_head_sound (fl : Flags) (p : PK) (first rest : E) (env : Env) :
+    eval env (simplifyCoalesce fl p (.coalesce (.cons first rest))) = eval env (.coalesce (.cons first rest)) := by
   simp only [simplifyCoalesce]
   split
   · rename_i h
+    rw [eval_wrapForParent]
     simp only [Bool.or_eq_true, decide_eq_true_eq] at h
     rcases h with h | h
     · subst h; simp only [eval, evalCoalesce]; cases eval env first <;> rfl
@@ -422,7 +433,7 @@ theorem simplify_coalesce_needs_nonnull_constant :
   ⟨.icol 0 false, .cons .null (.cons (.icol 1 false) .nil), .int 1, _,
    ⟨fun _ => none, fun k => if k = 1 then some 1 else none⟩, rfl, by decide⟩
 
-example : simplifyCoalesce ⟨false, false⟩ (.cmp .eq (.coalesce (.cons (.icol 0 false) (.cons .null (.cons (.icol 1 false) .nil)))) (.int 1))
+example : simplifyCoalesce ⟨false, false⟩ .none (.cmp .eq (.coalesce (.cons (.icol 0 false) (.cons .null (.cons (.icol 1 false) .nil)))) (.int 1))
     = .cmp .eq (.coalesce (.cons (.icol 0 false) (.cons .null (.cons (.icol 1 false) .nil)))) (.int 1) := by decide
 
 /-- the step checker is sound: an accepted step has the same 3-valued truth value under every assignment … -/
